@@ -27,7 +27,7 @@ S_PATTERNS = {
 H_PATTERNS = {
     "H1": r"sock\.send\(self\.send_buffer\)",
     "H2": r"self\.send_buffer\s*=\s*self\.send_buffer\[sent:\]",
-    "H3": r"if\s+len\(self\.send_buffer\)\s*==\s*0",
+    "H3": r"if\s+len\(self\.send_buffer\)\s*(==|>)\s*0",
     "H4": r"if\s+len\(self\.send_backlog\)\s*==\s*0",
     "H5": r"self\.stop_sending\(\)",
     "H6": r"self\.send_buffer\s*=\s*self\.send_backlog\.pop\(0\)",
@@ -119,6 +119,30 @@ class WatchLock:
         self.release()
 
 
+def pause_here(label):
+    """Call-level stop point: called (from a wrapper around a collaborator's method) on a stepped thread, it parks the thread exactly
+    like a line stop with this label.  On any other thread it does nothing."""
+    st = _BY_THREAD.get(threading.get_ident())
+    if st is None or st.free or not st.call_stops:
+        return
+    with st.cv:
+        if st.state == "blocked":
+            st.state = "running"
+        st.nstops += 1
+        st.state = "at:" + label
+        st.cv.notify_all()
+        while st.permit == 0 and not st.free:
+            st.cv.wait()
+        if st.permit:
+            st.permit -= 1
+        st.state = "running"
+
+
+def stepped_name():
+    st = _BY_THREAD.get(threading.get_ident())
+    return st.name if st is not None else None
+
+
 def watch_locks(obj):
     """Replace every lock-valued attribute of obj by a WatchLock; -> names replaced."""
     kinds = (type(threading.Lock()), type(threading.RLock()))
@@ -141,6 +165,7 @@ class Stepped:
         self.codes = {c for (c, _) in stops}
         self.files = tuple(every_line_in or ())
         self.nstops = 0
+        self.call_stops = False        # set by drivers that install call-level stop points (pause_here)
         self.cv = threading.Condition()
         self.job = None
         self.state = "idle"            # idle | running | at:<label> | dead
